@@ -393,6 +393,13 @@ def simplify_unitary(expr: e.Expr, t_name: str,
                 delta = KroneckerDelta(idx1[0], idx2[0])
             else:  # no matching indices
                 continue
+            # U_pq U_pq: both indices are shared. If the remaining index is
+            # a contracted index that does not occur on any other object,
+            # the sum over the index can not be represented by a delta.
+            if delta is S.One and idx1 == idx2 and \
+                    all(s not in target and idx_counter[s] == 2
+                        for s in idx1):
+                continue
 
             # lower the exponent of the 2 unitary tensors and
             # add the created delta to the term
